@@ -13,7 +13,9 @@ def snap(x, ident=True, depth=0):
         # dict subclasses keep their own name (recreate_branches treats OrderedDict differently from dict)
         return ("dict" if type(x) is dict else type(x).__name__, i, tuple((repr(k), snap(v, ident, depth + 1)) for k, v in x.items()))
     if isinstance(x, (list, tuple)):
-        return (type(x).__name__, i, tuple(snap(v, ident, depth + 1) for v in x))
+        # tuple subclasses (named tuples) keep their own name
+        name = type(x).__name__ if type(x) in (list, tuple) else "tuple:" + type(x).__name__
+        return (name, i, tuple(snap(v, ident, depth + 1) for v in x))
     if isinstance(x, (set, frozenset)):
         return (type(x).__name__, i, tuple(sorted(repr((type(v).__name__, v)) for v in x)))
     if x is None or isinstance(x, (int, float, str, bool, bytes)):
@@ -49,7 +51,7 @@ def diff(a, b, path=""):
             d = diff(x, y, path + ">" + k + "[k]")
             if d:
                 return d
-    elif k in ("list", "tuple"):
+    elif k in ("list", "tuple") or k.startswith("tuple:"):
         if len(a[2]) != len(b[2]):
             return (path + ">" + k, "length")
         for x, y in zip(a[2], b[2]):
